@@ -755,5 +755,9 @@ def replay(data: dict) -> bool:
         value = r["value"]
         parts = value.split(".")
         env = {"python_full_version": value if len(parts) == 3 else value + ".0", "python_version": ".".join(parts[:2])}
-        return ev(m, env) != smem(spec, Version(value))
+        try:
+            admits = smem(spec, Version(value))
+        except TypeError:       # an `===` specifier: read by packaging
+            admits = value in spec
+        return ev(m, env) != admits
     return True
